@@ -209,6 +209,8 @@ type pObs struct {
 }
 
 type pEvent struct {
+	isMid bool
+	mid   bool
 	isObs bool
 	l     pLabel
 	o     pOut
@@ -432,7 +434,9 @@ func pCoqObs(ob *pObs) string {
 func pCoqCase(cap int64, n int, evs []pEvent) string {
 	es := make([]string, len(evs))
 	for i, e := range evs {
-		if e.isObs {
+		if e.isMid {
+			es[i] = fmt.Sprintf("PEMid %v", e.mid)
+		} else if e.isObs {
 			es[i] = "PEObs " + pCoqObs(e.ob)
 		} else {
 			es[i] = "PELab " + pCoqLabel(e.l) + " " + pCoqOut(e.o)
